@@ -22,6 +22,7 @@ from __future__ import annotations
 
 import ast
 
+from ..astutil import first_stmt, last_stmt  # noqa: F401
 from ..astutil import (MUTATING_METHODS, ancestors, call_name, calls_in, guards_of, norm, stores_to,
                        walk_no_nested)
 from ..cfg import CFG
@@ -305,7 +306,7 @@ def rule_handlers(ctx, m):
             for x in walk_no_nested(meth.node):
                 if isinstance(x, ast.ExceptHandler):
                     n += 1
-                    rer = x.body and isinstance(x.body[-1], ast.Raise) and x.body[-1].exc is None
+                    rer = isinstance(last_stmt(x.body), ast.Raise) and last_stmt(x.body).exc is None
                     ctx.ob('C17-R4', meth, f'except {norm(x.type) if x.type else ""} re-raises unchanged', bool(rer),
                            're-raises' if rer else 'a rejection reason can be swallowed or replaced here',
                            line=x.lineno)
